@@ -33,6 +33,8 @@ def args_for(unit, failure, tier='quick'):
         return ['c10-resolve']
     if unit == 'U-PATHS':
         return ['c10-paths']
+    if unit == 'U-SIMILAR':
+        return ['c11-similar']
     if unit == 'U-TYEX':
         return ['c12-structure', '2000' if tier == 'thorough' else '300']
     if unit.startswith('kani:contains_type_path') or unit == 'U-CONTAINS':
